@@ -3,6 +3,7 @@ package main
 import (
 	"fmt"
 	"go/ast"
+	"go/parser"
 	"go/types"
 	"sort"
 	"strings"
@@ -248,6 +249,18 @@ func (fc *FnCtx) evalModItem(pre *State, con *Contract, m string, vars map[strin
 				return
 			}
 		}
+		if strings.HasPrefix(m, "contents(") && strings.HasSuffix(m, ")") {
+			sp, err := parseSpec(m[9 : len(m)-1])
+			if err != nil {
+				env.fail("%v", err)
+			}
+			v := env.eval(sp)
+			if _, isMap := v.T.Underlying().(*types.Map); !isMap {
+				env.fail("contents() needs a map")
+			}
+			out = append(out, modTarget{kind: "map", slice: v, ref: v.S, text: m})
+			return
+		}
 		switch {
 		case strings.HasPrefix(m, "elems(") && strings.HasSuffix(m, ")"):
 			sp, err := parseSpec(m[6 : len(m)-1])
@@ -381,7 +394,7 @@ func pkgOfType(t types.Type, def *types.Package) *types.Package {
 
 func (fc *FnCtx) applyModifies(st, pre *State, con *Contract, vars map[string]Val) (deferred []string) {
 	if con.ModAll {
-		fc.havocAll(st)
+		fc.havocAllBut(st, fc.keepPrefixes(con))
 		fc.noteHavocAll()
 		return nil
 	}
@@ -420,6 +433,32 @@ func (fc *FnCtx) havocTargets(st *State, targets []modTarget) {
 			fc.storeLoc(st, loc{name: "GH$" + m.ghost, idx: []string{m.ref}, sort: g.Ret}, fc.sc.fresh("gh_"+m.ghost, g.Ret))
 		}
 	}
+}
+
+// keepPrefixes resolves the `allbut` tokens to heap-name prefixes.
+func (fc *FnCtx) keepPrefixes(con *Contract) []string {
+	var out []string
+	for _, tok := range con.ModAllBut {
+		tok = strings.TrimSpace(tok)
+		switch {
+		case tok == "bytes":
+			out = append(out, "M$uint8$")
+		case fc.eng.ghosts[tok] != nil:
+			out = append(out, "GH$"+tok)
+		default:
+			env := fc.specEnv(nil, nil, nil, con.Pkg, nil, "modifies allbut "+tok)
+			e, err := parser.ParseExpr(tok)
+			if err != nil {
+				env.fail("%v", err)
+			}
+			t := env.resolveType(e)
+			if t == nil {
+				env.fail("unknown type %s", tok)
+			}
+			out = append(out, "H$"+typeName(t)+"$")
+		}
+	}
+	return out
 }
 
 func (c *Contract) allocates() bool {
@@ -495,9 +534,11 @@ func (fc *FnCtx) paramVars(fr *Frame) map[string]Val {
 
 func (fc *FnCtx) checkInvariants(fr *Frame, h *ssa.BasicBlock, li int, st *State, reach string, phiVals map[*ssa.Phi]Val, where string, phis []*ssa.Phi) {
 	for _, cl := range fc.invariantsFor(fr, li) {
-		env := fc.invEnv(fr, st, phiVals, phis, cl.Text)
-		t := env.evalBool(cl.Expr)
-		fc.oblige(fr, "invariant-"+where, fmt.Sprintf("loop %d: %s", li, clauseName(cl)), reach, t, env.quant, nil)
+		for _, part := range splitConj(cl.Expr) {
+			env := fc.invEnv(fr, st, phiVals, phis, cl.Text)
+			t := env.evalBool(part)
+			fc.oblige(fr, "invariant-"+where, fmt.Sprintf("loop %d: %s", li, clauseName(cl)), reach, t, env.quant, nil)
+		}
 	}
 	// step clauses: facts about one iteration, checked at the back edge with the
 	// iteration's locals in scope (never assumed)
@@ -510,6 +551,7 @@ func (fc *FnCtx) checkInvariants(fr *Frame, h *ssa.BasicBlock, li int, st *State
 		}
 		for _, cl := range steps {
 			env := fc.invEnv(fr, st, phiVals, phis, cl.Text)
+			env.prev = fc.loopHead[h]
 			t := env.evalBool(cl.Expr)
 			fc.oblige(fr, "loop-step", fmt.Sprintf("loop %d: %s", li, clauseName(cl)), reach, t, env.quant, nil)
 		}
@@ -779,15 +821,40 @@ func (fc *FnCtx) verify() {
 		fc.sc.assume(tImp(retReach, env.evalBool(cl.Expr)))
 	}
 	for _, cl := range con.Ensures {
-		env := fc.specEnv(st, pre, vars, con.Pkg, fr, cl.Text)
-		t := env.evalBool(cl.Expr)
-		o := fc.oblige(fr, "ensures", clauseName(cl), retReach, t, env.quant, nil)
-		if o != nil && cl.Top {
-			o.Kind = "ensures-top"
+		for _, part := range splitConj(cl.Expr) {
+			env := fc.specEnv(st, pre, vars, con.Pkg, fr, cl.Text)
+			t := env.evalBool(part)
+			o := fc.oblige(fr, "ensures", clauseName(cl), retReach, t, env.quant, nil)
+			if o != nil && cl.Top {
+				o.Kind = "ensures-top"
+			}
 		}
 	}
 	if con.HasMod && !con.ModAll {
 		fc.frameCheck(fr, st, pre, con, vars, retReach)
+	}
+	if con.ModAll && len(con.ModAllBut) > 0 {
+		// everything with a kept prefix must be unchanged for objects allocated at entry
+		keep := fc.keepPrefixes(con)
+		names := make([]string, 0, len(fc.sorts))
+		for n := range fc.sorts {
+			names = append(names, n)
+		}
+		sort.Strings(names)
+		for _, name := range names {
+			kept := false
+			for _, p := range keep {
+				if strings.HasPrefix(name, p) {
+					kept = true
+				}
+			}
+			if !kept {
+				continue
+			}
+			if cond := fc.frameCond(st, name, nil); cond != "" {
+				fc.oblige(fr, "frame", "allbut: "+name, retReach, cond, true, nil)
+			}
+		}
 	}
 }
 
@@ -856,99 +923,99 @@ func (fc *FnCtx) frameCond(st *State, name string, targets []modTarget) string {
 	alloc0 := fc.epochTerm(fc.ep0, "Alloc", "(Array Int Bool)")
 	{
 		{
-		if name == "Alloc" || strings.HasPrefix(name, "B$") {
-			return ""
-		}
-		srt := fc.sorts[name]
-		if srt == "" {
-			return ""
-		}
-		cur := fc.heapTerm(st, name, srt)
-		old := fc.epochTerm(fc.ep0, name, srt)
-		if cur == old {
-			return ""
-		}
-		var cond string
-		switch {
-		case strings.HasPrefix(name, "G$"):
-			allowed := false
-			for _, t := range targets {
-				if t.kind == "field" && t.addr.Kind == AGlobal {
-					b, _ := fc.addrBase(t.addr)
-					if strings.HasPrefix(name, b) {
-						allowed = true
-					}
-				}
-			}
-			if allowed {
+			if name == "Alloc" || strings.HasPrefix(name, "B$") {
 				return ""
 			}
-			cond = tEq(cur, old)
-		case strings.HasPrefix(name, "H$"):
-			var ex []string
-			for _, t := range targets {
-				if t.addr == nil || t.addr.Kind != AObj {
-					continue
-				}
-				b, _ := fc.addrBase(t.addr)
-				match := false
-				switch t.kind {
-				case "field":
-					match = name == b || strings.HasPrefix(name, b+".")
-				case "obj":
-					match = name == b || strings.HasPrefix(name, b)
-				}
-				if match {
-					ex = append(ex, tEq("r", t.addr.Base))
-				}
+			srt := fc.sorts[name]
+			if srt == "" {
+				return ""
 			}
-			cond = "(forall ((r Int)) (=> (and (select " + alloc0 + " r) " + tNot(tOr(ex...)) + ") (= (select " + cur + " r) (select " + old + " r))))"
-		case strings.HasPrefix(name, "GH$"):
-			var ex []string
-			for _, t := range targets {
-				if t.kind == "ghost" && "GH$"+t.ghost == name {
-					ex = append(ex, tEq("r", t.ref))
-				}
+			cur := fc.heapTerm(st, name, srt)
+			old := fc.epochTerm(fc.ep0, name, srt)
+			if cur == old {
+				return ""
 			}
-			cond = "(forall ((r Int)) (=> (and (select " + alloc0 + " r) " + tNot(tOr(ex...)) + ") (= (select " + cur + " r) (select " + old + " r))))"
-		case strings.HasPrefix(name, "M$"):
-			var ex []string
-			var inner []string
-			var sl []Val
-			for _, t := range targets {
-				if t.kind != "elems" {
-					continue
+			var cond string
+			switch {
+			case strings.HasPrefix(name, "G$"):
+				allowed := false
+				for _, t := range targets {
+					if t.kind == "field" && t.addr.Kind == AGlobal {
+						b, _ := fc.addrBase(t.addr)
+						if strings.HasPrefix(name, b) {
+							allowed = true
+						}
+					}
 				}
-				et := t.slice.T.Underlying().(*types.Slice).Elem()
-				b, _ := fc.addrBase(&Addr{Kind: AElem, Base: t.slice.Arr, Idx: "0", ElemT: et, T: et})
-				if name == b || strings.HasPrefix(name, b+".") || strings.HasPrefix(name, b) && strings.HasSuffix(b, "$") {
-					sl = append(sl, t.slice)
+				if allowed {
+					return ""
 				}
+				cond = tEq(cur, old)
+			case strings.HasPrefix(name, "H$"):
+				var ex []string
+				for _, t := range targets {
+					if t.addr == nil || t.addr.Kind != AObj {
+						continue
+					}
+					b, _ := fc.addrBase(t.addr)
+					match := false
+					switch t.kind {
+					case "field":
+						match = name == b || strings.HasPrefix(name, b+".")
+					case "obj":
+						match = name == b || strings.HasPrefix(name, b)
+					}
+					if match {
+						ex = append(ex, tEq("r", t.addr.Base))
+					}
+				}
+				cond = "(forall ((r Int)) (=> (and (select " + alloc0 + " r) " + tNot(tOr(ex...)) + ") (= (select " + cur + " r) (select " + old + " r))))"
+			case strings.HasPrefix(name, "GH$"):
+				var ex []string
+				for _, t := range targets {
+					if t.kind == "ghost" && "GH$"+t.ghost == name {
+						ex = append(ex, tEq("r", t.ref))
+					}
+				}
+				cond = "(forall ((r Int)) (=> (and (select " + alloc0 + " r) " + tNot(tOr(ex...)) + ") (= (select " + cur + " r) (select " + old + " r))))"
+			case strings.HasPrefix(name, "M$"):
+				var ex []string
+				var inner []string
+				var sl []Val
+				for _, t := range targets {
+					if t.kind != "elems" {
+						continue
+					}
+					et := t.slice.T.Underlying().(*types.Slice).Elem()
+					b, _ := fc.addrBase(&Addr{Kind: AElem, Base: t.slice.Arr, Idx: "0", ElemT: et, T: et})
+					if name == b || strings.HasPrefix(name, b+".") || strings.HasPrefix(name, b) && strings.HasSuffix(b, "$") {
+						sl = append(sl, t.slice)
+					}
+				}
+				for _, a := range sl {
+					ex = append(ex, tEq("r", a.Arr))
+					// j is outside every declared range that lives in the same array
+					var outs []string
+					for _, b := range sl {
+						out := "(or (< j " + b.Off + ") (>= j " + tAdd(b.Off, b.Len) + "))"
+						outs = append(outs, tImp(tEq(b.Arr, a.Arr), out))
+					}
+					inner = append(inner, "(forall ((j Int)) (=> "+tAnd(outs...)+" (= (select (select "+cur+" "+a.Arr+") j) (select (select "+old+" "+a.Arr+") j))))")
+				}
+				cond = tAnd(append([]string{"(forall ((r Int)) (=> (and (select " + alloc0 + " r) " + tNot(tOr(ex...)) + ") (= (select " + cur + " r) (select " + old + " r))))"}, inner...)...)
+			case strings.HasPrefix(name, "MD$"), strings.HasPrefix(name, "MV$"), name == "ML$":
+				// maps reachable from a modified map-valued field may change
+				var ex []string
+				for _, t := range targets {
+					if t.kind == "map" {
+						ex = append(ex, tEq("r", t.ref))
+					}
+				}
+				cond = "(forall ((r Int)) (=> (and (select " + alloc0 + " r) " + tNot(tOr(ex...)) + ") (= (select " + cur + " r) (select " + old + " r))))"
+			default:
+				return ""
 			}
-			for _, a := range sl {
-				ex = append(ex, tEq("r", a.Arr))
-				// j is outside every declared range that lives in the same array
-				var outs []string
-				for _, b := range sl {
-					out := "(or (< j " + b.Off + ") (>= j " + tAdd(b.Off, b.Len) + "))"
-					outs = append(outs, tImp(tEq(b.Arr, a.Arr), out))
-				}
-				inner = append(inner, "(forall ((j Int)) (=> "+tAnd(outs...)+" (= (select (select "+cur+" "+a.Arr+") j) (select (select "+old+" "+a.Arr+") j))))")
-			}
-			cond = tAnd(append([]string{"(forall ((r Int)) (=> (and (select " + alloc0 + " r) " + tNot(tOr(ex...)) + ") (= (select " + cur + " r) (select " + old + " r))))"}, inner...)...)
-		case strings.HasPrefix(name, "MD$"), strings.HasPrefix(name, "MV$"), name == "ML$":
-			// maps reachable from a modified map-valued field may change
-			var ex []string
-			for _, t := range targets {
-				if t.kind == "map" {
-					ex = append(ex, tEq("r", t.ref))
-				}
-			}
-			cond = "(forall ((r Int)) (=> (and (select " + alloc0 + " r) " + tNot(tOr(ex...)) + ") (= (select " + cur + " r) (select " + old + " r))))"
-		default:
-			return ""
-		}
-		return cond
+			return cond
 		}
 	}
 }
